@@ -18,8 +18,11 @@ import (
 	"log"
 	"math/rand"
 	"os"
+	"path/filepath"
 	"sort"
 	"strconv"
+	"strings"
+	"time"
 
 	"verifharness/enc"
 	"verifharness/hook"
@@ -197,6 +200,43 @@ func fold(sh map[string]*crew.Machine, r *sio.Result) {
 	}
 }
 
+// stdioStore gives the reports to a real Stdio coupling and returns the state it wrote.
+func stdioStore(results []*sio.Result) (map[string]*crew.Machine, bool) {
+	dir, err := os.MkdirTemp("", "verif-stdio")
+	check(err)
+	defer os.RemoveAll(dir)
+	ctx, cancel := context.WithCancel(context.Background())
+	defer cancel()
+	st := sio.NewStdio(false)
+	st.In, st.Out = strings.NewReader(""), io.Discard
+	st.StateOutputFilename = filepath.Join(dir, "state.json")
+	_, out, err := st.IO(ctx)
+	check(err)
+	for _, r := range results {
+		if r != nil {
+			out <- r
+		}
+	}
+	out <- nil // (the coupling's writer ends at a nil report)
+	done := make(chan error, 1)
+	go func() { done <- st.Stop(ctx) }()
+	select {
+	case err := <-done:
+		if err != nil {
+			return nil, false
+		}
+	case <-time.After(10 * time.Second):
+		return nil, false
+	}
+	js, err := os.ReadFile(st.StateOutputFilename)
+	if err != nil {
+		return map[string]*crew.Machine{}, true
+	}
+	var m map[string]*crew.Machine
+	check(json.Unmarshal(js, &m))
+	return m, true
+}
+
 func copyShadow(sh map[string]*crew.Machine) map[string]*crew.Machine {
 	// through JSON, as a store on disk would hold it
 	js, err := json.Marshal(sh)
@@ -326,7 +366,15 @@ func runHistory(id int, kind string, h *history, restarts bool) O {
 		}
 	}
 	raw, _ := json.Marshal(h)
-	return O{"id": id, "kind": kind, "live0": live0, "steps": steps, "restarts": rs, "raw": string(raw)}
+	res := O{"id": id, "kind": kind, "live0": live0, "steps": steps, "restarts": rs, "raw": string(raw)}
+	if restarts && len(h.Msgs) > 0 {
+		// the reference consumer: the same reports given to a real sio.Stdio, which folds them into the state it writes out;
+		// its state file, read back, must be the store that this driver's own fold arrives at
+		if st, ok := stdioStore(results); ok {
+			res["stdioStore"] = snapShadow(st)
+		}
+	}
+	return res
 }
 
 // ---------------------------------------------------------------- generators
@@ -438,6 +486,33 @@ func nanSpec() interface{} {
 	return x
 }
 
+// diagSpec: a machine whose action ends without a branch to follow for a message {"diag":x} (it goes to the error node with
+// the diagnostic bindings) and that recovers on {"retry":true} by looking INTO those bindings: what it finds there must not
+// depend on whether the crew was restarted from the store in between.
+func diagSpec() interface{} {
+	sp := &core.Spec{
+		Name: "diag",
+		Nodes: map[string]*core.Node{
+			"start": {Branches: &core.Branches{Type: "message", Branches: []*core.Branch{{Pattern: map[string]interface{}{"diag": "?x"}, Target: "note"}}}},
+			"note": {ActionSource: &core.ActionSource{Interpreter: "ecmascript", Source: "var bs = _.bindings; bs.was = bs['?x']; delete bs['?x']; return bs;"},
+				Branches: &core.Branches{Type: "bindings", Branches: []*core.Branch{{Target: "try"}}}},
+			"try": {ActionSource: &core.ActionSource{Interpreter: "ecmascript", Source: "return _.bindings;"},
+				Branches: &core.Branches{Type: "bindings", Branches: []*core.Branch{{Pattern: map[string]interface{}{"nope": float64(1)}, Target: "start"}}}},
+			"error": {Branches: &core.Branches{Type: "message", Branches: []*core.Branch{{Pattern: map[string]interface{}{"retry": true}, Target: "triage"}}}},
+			"triage": {Branches: &core.Branches{Type: "bindings", Branches: []*core.Branch{
+				{Pattern: map[string]interface{}{"lastBindings": map[string]interface{}{"was": "?w"}}, Target: "recovered"},
+				{Target: "lost"}}}},
+			"recovered": {ActionSource: &core.ActionSource{Interpreter: "ecmascript", Source: "_.out({recovered: _.bindings['?w']}); return {};"},
+				Branches: &core.Branches{Type: "bindings", Branches: []*core.Branch{{Target: "start"}}}},
+			"lost": {},
+		},
+	}
+	js, _ := json.Marshal(&crew.SpecSource{Inline: sp})
+	var x interface{}
+	json.Unmarshal(js, &x)
+	return x
+}
+
 // brokenSpec: a spec source whose action does not compile
 func brokenSpec() interface{} {
 	return map[string]interface{}{"inline": map[string]interface{}{"name": "broken", "nodes": map[string]interface{}{
@@ -490,7 +565,16 @@ func genHist(id int) O {
 	if withNaN {
 		h.Msgs = append(h.Msgs, map[string]interface{}{"id": newID("op"), "to": "captain", "update": map[string]interface{}{"z": map[string]interface{}{"spec": nanSpec()}}})
 	}
+	withDiag := rng.Intn(5) == 0
+	if withDiag {
+		h.Msgs = append(h.Msgs, map[string]interface{}{"id": newID("op"), "to": "captain", "update": map[string]interface{}{"y": map[string]interface{}{"spec": diagSpec()}}})
+		h.Msgs = append(h.Msgs, map[string]interface{}{"id": newID("m"), "to": "y", "diag": float64(1 + rng.Intn(3))})
+	}
 	for i, k := 0, 2+rng.Intn(4); i < k; i++ {
+		if withDiag && rng.Intn(3) == 0 {
+			h.Msgs = append(h.Msgs, map[string]interface{}{"id": newID("m"), "to": "y", pickS([]string{"retry", "retry", "diag"}): true})
+			continue
+		}
 		if withNaN && rng.Intn(3) == 0 {
 			// (unrouted: the recorders see it, too, and their changes have to be reported whatever becomes of z)
 			h.Msgs = append(h.Msgs, map[string]interface{}{"id": newID("m"), "nan": float64(rng.Intn(2))})
